@@ -33,7 +33,7 @@ ASSUMPTIONS = [
     'horizon 60 s per run; scripts are run in-process through runpy (same code path as __main__) and a subset as real subprocesses',
 ]
 
-STRAY = [';', '}', '{', ')', '(', '<', '>', ',', '=', '::', '*', '&', '@', '"', 'class', 'x', 'const', '7']
+STRAY = [';', '}', '{', ')', '(', '<', '>', ',', '=', '::', '*', '&', 'const', '@', '"', 'class', 'x', '7']
 HORIZON = 60
 
 
@@ -525,7 +525,7 @@ def replay(case):
 
 def run(ctx):
     names = ['tiny-class', 'tiny-func', 'default-expressions', 'class', 'templates', 'mixed', 'inherit']
-    stray = STRAY if ctx.thorough else STRAY[:12]
+    stray = STRAY if ctx.thorough else STRAY[:13]
     cases = []
     for name in names:
         toks = seed_tokens(name)
